@@ -208,6 +208,15 @@ def run(res, tier, seed, replay):
     impl = open(impl_p).read().split("\n")[:-1]
     assert len(cases) == len(impl) == len(model), (len(cases), len(impl), len(model))
 
+    # Which tree is this?  Decls.v follows the resolver WITH hooks/fix-c14-resolver-duplicate-names.patch (a type declared after a
+    # function / import of the same name is a DuplicateInterfaceExport / DuplicateWorldItem error).  Without the patch the same
+    # inputs panic (`assert!(prev.is_none(), "duplicate type in scope")`); that outcome is accepted for exactly those inputs
+    # (model says one of the two error classes AND the panic message is one of the two asserts) only on such a tree.
+    try:
+        rsrc = open(os.path.join(vlib.REPO, "crates", "wac-parser", "src", "resolution.rs")).read()
+    except OSError:
+        rsrc = ""
+    prefix_tree = '"duplicate type in scope"' in rsrc
     known = {e["signature"]: e for e in vlib.load_known(PID) if e.get("status") == "known"}
     for e in PROPOSED_KNOWN:
         known.setdefault(e["signature"], e)
@@ -233,7 +242,12 @@ def run(res, tier, seed, replay):
         # (a) correspondence model <-> implementation.  A Rust panic carries its message; the model only its site.
         o1 = "PANIC" if obs.startswith("PANIC") else obs
         m1 = "PANIC" if mobs.startswith("PANIC") else mobs
-        if mobs == "UNMODELLED":
+        if (prefix_tree and obs.startswith("PANIC") and mobs in ("ERR DuplicateInterfaceExport", "ERR DuplicateWorldItem")
+                and re.search(r"resolution\.rs:\d+ (duplicate type in scope|assertion failed: prev\.is_none\(\))", obs)):
+            # known finding C14 resolver-dup-func-then-type: before hooks/fix-c14-resolver-duplicate-names.patch the resolver
+            # panics where the repaired code (which Decls.v follows) returns the duplicate-name diagnostic
+            stats["c14_pre_fix_resolver_panics"] = stats.get("c14_pre_fix_resolver_panics", 0) + 1
+        elif mobs == "UNMODELLED":
             stats["unmodelled"] = stats.get("unmodelled", 0) + 1      # outside the declaration half (imports, lets, exports, targets)
         elif o1 != m1:
             disagreements.append((c, obs, mobs))
@@ -290,7 +304,8 @@ def run(res, tier, seed, replay):
     res.coverage.update(dict(
         correspondence_cases=len(cases), corpus_cases=ncorpus, evaluations=len(cases), disagreements=len(disagreements),
         spec_failures_on_impl=len(spec_fail), reference_failures=len(ref_fail),
-        known_finding_hits={k: len(v) for k, v in known_hits.items()}, stats=stats, error_classes=errclasses,
+        known_finding_hits={k: len(v) for k, v in known_hits.items()}, stats=stats,
+        resolver_tree="without fix-c14-resolver-duplicate-names (panics tolerated for those inputs)" if prefix_tree else "with fix-c14-resolver-duplicate-names", error_classes=errclasses,
         features=featcount, distinct_nontrivial=len(nontrivial),
         rule="cases: generated packages (<=6 interfaces, <=3 worlds, value-type constructors, resources with constructor/"
              "method/static, own/borrow, use chains and diamonds with renames, versioned package ids, worlds with named func / "
